@@ -2,6 +2,7 @@
 //! 
 //! Provides Redis-compatible storage with sharded simple structure and no access time tracking overhead.
 
+use crate::storage::commands::RedisInt;
 use std::collections::{VecDeque, HashSet, HashMap};
 use std::sync::{Arc, RwLock};
 use std::time::{Duration, Instant};
@@ -1898,7 +1899,7 @@ impl StorageEngine {
                     let new_val = match hash.get(&field) {
                         Some(current_bytes) => {
                             let current_str = String::from_utf8_lossy(current_bytes);
-                            match current_str.parse::<i64>() {
+                            match current_str.parse_redis::<i64>() {
                                 Ok(current) => match current.checked_add(increment) {
                                     Some(new_val) => new_val,
                                     None => return Err(FerrousError::Command(CommandError::Generic(
